@@ -93,7 +93,7 @@ func highRatioBlock(exts int, last byte) []byte {
 func runCodecs(seed uint64, n int, tier string, out string, replay string) {
 	rnd := hx.NewRand(seed)
 	sum := hx.NewSummary("codecs", seed)
-	sum.Rule = "Coq-evaluated cases: (a) level handling — a profile configured with each value of {0..13, 99, 2^31-1, 2^31, 2^32-1, 2^32+5} through compress.Reset; pike's gzip/brotli output for a probe body is compared with the reference encoders at every level to identify the level in effect; (b) decoder dispatch for the five documented encodings, identity and unsupported names; (c) LZ4 blocks — encoder outputs for n small bodies, hand-made high-ratio blocks (0..6 length-extension bytes: up to 1.5 KiB from 11 bytes), truncated blocks — pike's LZ4Decode vs the block-decoder model. Go-side only (volume): round trips of bodies 0 B..1 MiB (random, text, zeros, pattern) through pike's gzip/brotli at levels -1..12 decoded by pike AND by the reference decoders; all five pike decoders on reference-encoded streams incl. 1 MiB of zeros; 200 mutated streams per decoder under recover + 20 s watchdog. non-trivial = level case outside 1..9 or block with ratio > 10; distinct by case content"
+	sum.Rule = "Coq-evaluated cases: (a) level handling — a profile configured with each value of {0..13, 99, 2^31-1, 2^31, 2^32-1, 2^32+5} through compress.Reset; pike's gzip/brotli output for a probe body is compared with the reference encoders at every level to identify the level in effect; (b) decoder dispatch for the five documented encodings, identity and unsupported names; (c) LZ4 blocks — encoder outputs for n small bodies, hand-made high-ratio blocks (0..6 length-extension bytes: up to 1.5 KiB from 11 bytes), truncated blocks — pike's LZ4Decode vs the block-decoder model. Go-side only (volume): round trips of bodies 0 B..1 MiB (random, text, zeros, pattern) through pike's gzip/brotli at levels -1..12 decoded by pike AND by the reference decoders; all five pike decoders on reference-encoded streams incl. 1 MiB of zeros; 200 mutated streams per decoder under recover + 20 s watchdog; structured valid streams (multi-member / header-field / stored / huffman-only gzip, multi-frame and checksummed zstd, brotli at several qualities and window sizes and with flushes, literal-only snappy, LZ4 HC block) must be restored in full. non-trivial = level case outside 1..9 or block with ratio > 10; distinct by case content"
 	header := "From Coq Require Import List NArith ZArith.\nImport ListNotations.\nFrom Pike Require Import Base.Bytes Model.Compress Model.LZ4 Corr.C12Corr.\n"
 	w := hx.NewCaseWriter(out, "codecs", header, "list c12_case", "check_cases", 60, sum)
 	distinct := hx.NewDistinct()
@@ -262,6 +262,81 @@ func runCodecs(seed uint64, n int, tier string, out string, replay string) {
 					}
 				}
 			}
+		}
+	}
+	// ---- structured valid streams of each format (what an origin may legally send): every one must be
+	// restored to the concatenation of its parts by pike's decoder for that format
+	parts := [][]byte{bodyKinds(rnd, 5200)["text"], {}, bodyKinds(rnd, 65536)["random"], []byte("tail")}
+	var whole []byte
+	for _, p := range parts {
+		whole = append(whole, p...)
+	}
+	gzMember := func(data []byte, level int, name, comment string, extra []byte) []byte {
+		var b bytes.Buffer
+		zw, _ := stdgzip.NewWriterLevel(&b, level)
+		zw.Name, zw.Comment, zw.Extra = name, comment, extra
+		_, _ = zw.Write(data)
+		_ = zw.Close()
+		return b.Bytes()
+	}
+	type vstream struct {
+		codec, shape string
+		stream, want []byte
+	}
+	var vs []vstream
+	{
+		var multi []byte
+		for i, p := range parts {
+			multi = append(multi, gzMember(p, []int{6, 1, 9, 0}[i%4], "", "", nil)...)
+		}
+		vs = append(vs, vstream{"gzip", "multi-member(4, one empty)", multi, whole})
+		vs = append(vs, vstream{"gzip", "two-members", append(gzMember(parts[0], 6, "", "", nil), gzMember(parts[3], 6, "", "", nil)...), append(append([]byte{}, parts[0]...), parts[3]...)})
+		vs = append(vs, vstream{"gzip", "header name+comment+extra", gzMember(parts[0], 6, "a.txt", "c", []byte{1, 2, 3, 4}), parts[0]})
+		vs = append(vs, vstream{"gzip", "stored blocks (level 0)", gzMember(parts[2], 0, "", "", nil), parts[2]})
+		vs = append(vs, vstream{"gzip", "huffman only", gzMember(parts[0], -2, "", "", nil), parts[0]})
+		zw1, _ := zstd.NewWriter(nil, zstd.WithEncoderLevel(zstd.SpeedFastest))
+		zw2, _ := zstd.NewWriter(nil, zstd.WithEncoderLevel(zstd.SpeedBestCompression), zstd.WithEncoderCRC(true))
+		var zmulti []byte
+		for i, p := range parts {
+			if i%2 == 0 {
+				zmulti = zw1.EncodeAll(p, zmulti)
+			} else {
+				zmulti = zw2.EncodeAll(p, zmulti)
+			}
+		}
+		vs = append(vs, vstream{"zst", "multi-frame(4)", zmulti, whole})
+		vs = append(vs, vstream{"zst", "best+crc", zw2.EncodeAll(parts[2], nil), parts[2]})
+		for _, q := range []int{0, 1, 11} {
+			for _, lgwin := range []int{10, 16, 24} {
+				var b bytes.Buffer
+				bw := brotli.NewWriterOptions(&b, brotli.WriterOptions{Quality: q, LGWin: lgwin})
+				_, _ = bw.Write(whole)
+				_ = bw.Close()
+				vs = append(vs, vstream{"br", fmt.Sprintf("quality %d lgwin %d", q, lgwin), b.Bytes(), whole})
+			}
+		}
+		{
+			var b bytes.Buffer
+			bw := brotli.NewWriterLevel(&b, 5)
+			for _, p := range parts {
+				_, _ = bw.Write(p)
+				_ = bw.Flush() // several meta-blocks
+			}
+			_ = bw.Close()
+			vs = append(vs, vstream{"br", "flushed after every part", b.Bytes(), whole})
+		}
+		vs = append(vs, vstream{"snz", "incompressible (literals only)", snappy.Encode(nil, parts[2]), parts[2]})
+		hc := make([]byte, lz4.CompressBlockBound(len(whole)))
+		if nn, err := lz4.CompressBlockHC(whole, hc, 0); err == nil && nn > 0 {
+			vs = append(vs, vstream{"lz4", "HC block", hc[:nn], whole})
+		}
+	}
+	for _, v := range vs {
+		d, err := compress.Get("").Decompress(v.codec, v.stream)
+		rt++
+		sum.Count("valid-stream:" + v.codec)
+		if err != nil || !bytes.Equal(d, v.want) {
+			sum.ImplViolations = append(sum.ImplViolations, map[string]interface{}{"property": "C12", "kind": "valid-stream-not-restored", "codec": v.codec, "shape": v.shape, "stream_len": len(v.stream), "want_len": len(v.want), "got_len": len(d), "error": fmt.Sprint(err)})
 		}
 	}
 	sum.Distribution["go_side_roundtrips"] = rt
